@@ -177,6 +177,8 @@ def _run_case(case):
     best, results = call(1)
     first, aggs = verify(best, results, "serial")
     labels = {mode.name, "float" if is_float else "int", f"reps{reps}"}
+    if len(combos) > 32:
+        labels.add("combinations>32")
     procs = int(case.get("processes", 1))
     if procs > 1:
         best2, results2 = call(procs)
@@ -213,8 +215,13 @@ def strategy(tier):
 
     @st.composite
     def case(draw):
-        na = draw(st.integers(1, 4))
-        nb = draw(st.integers(1, 2)) if na <= 3 else 1
+        large = draw(st.integers(0, 11)) == 0
+        if large:                      # more combinations than a batching threshold would be
+            from vf.fixtures import near_pow2
+            na, nb = draw(near_pow2(17, 70)), 1
+        else:
+            na = draw(st.integers(1, 4))
+            nb = draw(st.integers(1, 2)) if na <= 3 else 1
         n = na * nb
         is_float = draw(st.integers(0, 3)) == 0
         mode = draw(st.integers(0, 7))
@@ -242,7 +249,7 @@ def strategy(tier):
         if n >= 2 and draw(st.integers(0, 2)) == 0:       # plant a tie between two combinations
             i, j = draw(st.integers(0, n - 1)), draw(st.integers(0, n - 1))
             scores[j] = list(scores[i])
-        procs = draw(st.sampled_from([1, 1, 1, 1, 1, 1, 1, 2, 3, maxproc]))
+        procs = draw(st.sampled_from([1, 1, 1, 1, 1, 1, 1, 2, 3, maxproc])) if not large else draw(st.sampled_from([2, 3, 4, maxproc]))
         complete_at = draw(st.sampled_from([0, 0, 1, 2, None]))
         max_ts = draw(st.sampled_from([None, 0, 1, 2, 3])) if complete_at is not None else draw(st.integers(0, 3))
         return {"na": na, "nb": nb, "float": is_float, "mode": mode, "reps": reps, "scores": scores, "processes": procs,
